@@ -43,8 +43,9 @@ def run(run_, ctx):
             if len(ks) != 1 or len(kd) != 1:
                 run_.bad("X", key, "expected exactly one Serialize and one Deserialize impl, found %d/%d" % (len(ks), len(kd)))
                 continue
-            so = summ2.summarize(F, fns[ks[0]])["outcomes"]
-            do = summ2.summarize(F, fns[kd[0]])["outcomes"]
+            ren = glue.renames(F, pc, glue.load2("A"))
+            so = summ2.summarize(F, fns[ks[0]], renames=ren)["outcomes"]
+            do = summ2.summarize(F, fns[kd[0]], renames=ren)["outcomes"]
             ls = " ".join(o["text"] for o in so)
             ld = " ".join(o["text"] for o in do)
             probs = []
